@@ -136,6 +136,13 @@ def main(tier, seed):
                 rep.violation("%s build: %s  -> spec %r impl %r %s" % (bname, case_src(x["c"]).split("\n")[1 if x["c"]["op"] != "iterate" else 1], want, got,
                                                                      "" if run["ok"] else run.get("messages")),
                               {"case": x["c"], "source": case_src(x["c"]), "spec": want, "impl": run})
+    # conversion to and from numbers: NumFormat.tla (exact doubles, exact decimal expansions) on the boundary numbers, random patterns and short texts
+    from checks import c19
+    nconv, cstates, nnum, ntext = c19.conversion_layer(rep, bins, tier, seed)
+    ncmp += nconv
+    states += cstates
+    trans += cstates
+    rep.coverage["number_conversion"] = {"numbers": nnum, "texts": ntext, "comparisons": nconv}
     rep.coverage["states"] = states
     rep.coverage["transitions"] = trans
     rep.coverage["traces_validated_against_impl"] = ncmp
@@ -148,5 +155,5 @@ def main(tier, seed):
                             "every argument combination from the pools (find with every start, replace, split, starts/ends_with, classification, "
                             "bytes, code points, char_byte_index, iteration, from_utf8 / from_code_points on valid and invalid sequences); the model "
                             "also proves every produced string is valid UTF-8 (invariant ProducesValidUtf8)")
-    rep.assumptions += ["to_num / number text is decided by C19", "the Rust side cannot hold invalid UTF-8 in a String: an out-of-boundary slice shows up as a host panic"]
+    rep.assumptions += ["to_num / String.from on numbers: the boundary, random-pattern and short-text parts of NumFormat.tla run here; the lattice sweep is C19's", "the Rust side cannot hold invalid UTF-8 in a String: an out-of-boundary slice shows up as a host panic"]
     return rep.finish()
